@@ -158,10 +158,14 @@ func (mem *CListMempool) FlushAppConn() error {
 	return mem.proxyAppConn.FlushSync()
 }
 
-// XXX: Unsafe! Calling Flush may leave mempool in inconsistent state.
+// Flush empties the pool and the cache. It excludes CheckTx, reaping and
+// Update (the write side of the update lock) and the insertion step of
+// first-time CheckTx callbacks, which a socket client runs without that lock.
 func (mem *CListMempool) Flush() {
-	mem.updateMtx.RLock()
-	defer mem.updateMtx.RUnlock()
+	mem.updateMtx.Lock()
+	defer mem.updateMtx.Unlock()
+	mem.insertMtx.Lock()
+	defer mem.insertMtx.Unlock()
 
 	_ = atomic.SwapInt64(&mem.txsBytes, 0)
 	mem.cache.Reset()
